@@ -128,8 +128,8 @@ end TMap
 
 /-! ## `searchFree`, `insertDistinct`, `insertAll` -/
 
-theorem searchFree_spec (prec hi v : ℝ) (m : TMap ℝ) (fuel : Nat) (j f : Int) (c : ℝ)
-    (h : searchFree prec hi v m fuel j f = some c) : TMap.find? prec c m = none := by
+theorem searchFree_spec (prec step hi v : ℝ) (m : TMap ℝ) (fuel : Nat) (j f : Int) (c : ℝ)
+    (h : searchFree prec step hi v m fuel j f = some c) : TMap.find? prec c m = none := by
   induction fuel generalizing j f with
   | zero => simp [searchFree] at h
   | succ n ih =>
@@ -146,7 +146,7 @@ theorem insertDistinct_spec (prec hi p : ℝ) (m m' : TMap ℝ) (v : ℝ) (h : i
   unfold insertDistinct at h
   split at h
   · obtain ⟨c, hs, heq⟩ := Option.map_eq_some_iff.1 h
-    exact ⟨c, searchFree_spec _ _ _ _ _ _ _ _ hs, heq.symm⟩
+    exact ⟨c, searchFree_spec _ _ _ _ _ _ _ _ _ hs, heq.symm⟩
   · rename_i hnf
     injection h with h
     exact ⟨v, Option.not_isSome_iff_eq_none.mp hnf, h.symm⟩
